@@ -40,6 +40,8 @@ check_C11() {
 check_C10() {
   build_inpkg c10_udpisolation_verif_test.go
   inpkg_test inpkg TestVerifC10
+  build_proxy
+  wire_part wire datagram
 }
 
 check_C15() {
